@@ -264,6 +264,16 @@ fn main() {
     if !have("outcome[expected=ok off=ok circuit=accept]") || !have("outcome[expected=fail") || !have("outcome[expected=ill") {
         rep.inconclusive("an outcome class (succeeding / failing / ill-formed) was never observed");
     }
+    // operation x operand-type matrix (measured)
+    let mut matrix: BTreeMap<String, BTreeMap<String, u64>> = BTreeMap::new();
+    for (k, v) in &rep.counters {
+        if let Some(rest) = k.strip_prefix("op[") {
+            if let Some((op, ty)) = rest.trim_end_matches(']').split_once(':') {
+                *matrix.entry(op.to_string()).or_default().entry(ty.to_string()).or_insert(0) += v;
+            }
+        }
+    }
+    rep.set("op_type_matrix", json!(matrix));
     rep.min_nontrivial = ctx.tier.pick(300, 3000);
     let _ = thorough;
     rep.finish();
